@@ -21,6 +21,17 @@ log; nothing else is instrumented.  The log is judged after the run:
         be waited for is only that wait's own overshoot - lateness of earlier
         cycles (long work, overshoots) is not carried into later deadlines.
         A cycle that starts with no wait at all cannot start sooner: not judged.
+        Not judged either (observed and counted only, see notes/C07.md section 3): a
+        cycle whose wait contains a sleep sized by a reading that itself revealed a
+        backward step - MonoTimer.remaining is then too long by the step, but that
+        lateness is made in the cycle's own wait and is caught up afterwards, which
+        the statement does not forbid.
+
+Violation keys name the mechanism, not the symptom's case: `<early|drift>:stale-timer-duration`
+(timer.duration != doist.tock when cycle 0 begins), `<early|drift>:stale-last-reading`
+(the pacing timer begins the run with _last != _start; diagnosis only, nothing is decided on
+these attributes), else `early:cycle-start` / `drift:lateness-accumulates`;
+`wait-loop:no-progress`, `escape:do:<Exception>`.
 
 All script values are multiples of 1/64 and the wall base is an integer, so the
 arithmetic of hio and of the oracle is exact and both comparisons are exact.
@@ -52,6 +63,8 @@ ASSUMPTIONS = [
     "begin of cycle 0 (both are the choices that demand least)",
     "doers are trivial Doer subclasses whose recur consumes scripted true time; hio is single threaded",
     "reading the clock takes no true time",
+    "lossless is judged in the scheduler's own compensated time (sum of non-negative reading increments): wall time lost to "
+    "backward steps / stalls is not drift; a wait sized by a reading that revealed a backward step is observed, not judged",
 ]
 LEVEL_TEXT = ("Every cycle start of every generated run is judged against the exact never-early bound and the exact "
               "no-accumulated-lateness bound; the space of single-event clock scripts is enumerated for small runs and "
@@ -169,7 +182,7 @@ def cases(tier, seed, shard, nshards):
             yield c
         i += 1
     rng = random.Random(f"{seed}:C07:{shard}")
-    nrand = (6000 if tier == "quick" else 240000) // nshards
+    nrand = (16000 if tier == "quick" else 240000) // nshards
     for j in range(nrand):
         yield rand_case(rng, FAMILIES[j % len(FAMILIES)], tier)
 
